@@ -1,4 +1,5 @@
 """C09 - requests are written byte-for-byte in the canonical iOS form (DESIGN 4/C09)."""
+import asyncio
 import ipaddress
 import json
 import re
@@ -97,6 +98,7 @@ def check_request(R, req, host, want):
 
 def run_case(case, R):
     host = HOSTS[case["host"]]
+    host2 = HOSTS[case["host2"]] if case.get("host2") and HOSTS[case["host2"]] != host else None
     ops = case["ops"]
     R.nt(":" in host or any(o[0] in ("put", "subscribe", "unsubscribe", "raw_put_json", "raw_post_json", "raw_post", "add_pairing", "image") or
                             (o[0] == "get" and len(o[1]) >= 2) for o in ops))
@@ -105,7 +107,9 @@ def run_case(case, R):
         R.cls("request>1024 bytes")
 
     async def main(loop):
-        w = IpWorld(loop, hosts=(host,), k=case.get("k", 0))
+        w = IpWorld(loop, hosts=(host,) + ((host2,) if host2 else ()), k=case.get("k", 0))
+        refuse = set()
+        w.net.connect_policy = lambda h, n: "refuse" if h in refuse else "accept"
         expected = []       # one entry per request the accessory should see on the secure session, in order
 
         def hook(conn, req):
@@ -121,6 +125,7 @@ def run_case(case, R):
             for op in ops:
                 name = op[0]
                 R.cls("op:" + name)
+                n_exp, n_seen = len(expected), len(w.acc.all_requests)
                 try:
                     if name == "list":
                         expected.append({"method": "GET", "target": "/accessories", "no_body": True})
@@ -173,6 +178,17 @@ def run_case(case, R):
                         expected.append({"method": "POST", "target": "/resource", "ctype": "application/hap+json",
                                          "body_json": {"aid": op[1], "resource-type": "image", "image-width": op[2], "image-height": op[3]}})
                         await p.image(op[1], op[2], op[3])
+                    elif name == "move":
+                        # the session is lost and the address it used stops answering: the controller reconnects to the other address
+                        if host2 is None:
+                            continue
+                        cur = w.acc.conns[-1]
+                        refuse.clear()
+                        refuse.add(cur.host)
+                        cur.close("fin")
+                        await asyncio.sleep(3)
+                        await vtime.settle(loop)
+                        expected.append("reconnect")
                     elif name == "raw_get":
                         expected.append({"method": "GET", "target": op[1], "no_body": True})
                         await p.connection.get(op[1])
@@ -190,8 +206,10 @@ def run_case(case, R):
                         await p.connection.put(op[1], bytes(op[2]))
                 except Exception as e:  # noqa: BLE001  API-level failures (404 etc.) are not this property's business
                     R.cls("op-exception:" + type(e).__name__)
+                    await vtime.settle(loop)
+                    if len(w.acc.all_requests) == n_seen:
+                        del expected[n_exp:]        # refused before anything was sent (e.g. a value the encoder cannot represent)
             await p.close()
-            conn = w.acc.conns[0]
             if len(w.acc.conns) != 1:
                 R.cls("reconnected")
             # every request = exactly one write call, in order
@@ -210,22 +228,24 @@ def run_case(case, R):
             secure = [r for r in reqs if r.secure]
             plain = [r for r in reqs if not r.secure]
             for r in plain:
-                check_request(R, r, host, {"method": "POST", "target": "/pair-verify", "ctype": "application/pairing+tlv8"})
-            if len(w.acc.conns) == 1:
-                if len(secure) != len(expected):
-                    R.fail("C09.request-count", f"{len(secure)} requests seen, {len(expected)} issued: {[(r.method, r.target) for r in secure][:12]}")
-                for r, want in zip(secure, expected):
-                    check_request(R, r, host, want)
+                check_request(R, r, r.conn.host, {"method": "POST", "target": "/pair-verify", "ctype": "application/pairing+tlv8"})
+            exp_req = [e for e in expected if e != "reconnect"]
+            if len(w.acc.conns) == 1 and len(secure) == len(exp_req):
+                for r, want in zip(secure, exp_req):
+                    check_request(R, r, r.conn.host, want)
+            elif len(w.acc.conns) == 1:
+                R.fail("C09.request-count", f"{len(secure)} requests seen, {len(exp_req)} issued: {[(r.method, r.target) for r in secure][:12]}")
             else:
-                for r in secure:
-                    check_request(R, r, host, None)
+                for r in secure:        # re-subscriptions etc. after a reconnect: every request is still held to the canonical form
+                    check_request(R, r, r.conn.host, None)
         finally:
             w.restore()
     vtime.run(main)
 
 
 # ---------------------------------------------------------------- strategies
-JSON_SCALARS = st.one_of(st.integers(900, 3000).map(lambda n: "long " * (n // 5)), st.none(), st.booleans(), st.integers(-2**63, 2**63 - 1), st.integers(0, 2**64 - 1),
+JSON_SCALARS = st.one_of(st.integers(900, 3000).map(lambda n: "long " * (n // 5)), st.integers(2**64, 2**70), st.integers(-2**70, -2**63 - 1),
+                         st.sampled_from([2**64, -2**63 - 1, 10**30, "\ud800 lone surrogate"]), st.none(), st.booleans(), st.integers(-2**63, 2**63 - 1), st.integers(0, 2**64 - 1),
                          st.floats(allow_nan=False, allow_infinity=False, width=64),
                          st.text(max_size=12), st.sampled_from(["", " ", "a b", "\"q\"", "\\", "é€\U0001F600", "\n\t", "{\"x\": 1}"]))
 JSON_VALUES = st.recursive(JSON_SCALARS, lambda c: st.one_of(st.lists(c, max_size=4), st.dictionaries(st.text(max_size=6), c, max_size=4)), max_leaves=12)
@@ -235,7 +255,7 @@ IDSETS = st.lists(st.sampled_from(ALL_IDS + [(3, 1), (1, 65535), (17, 300)]), mi
 
 @st.composite
 def op(draw):
-    name = draw(st.sampled_from(["list", "get", "get", "put", "put", "subscribe", "unsubscribe", "identify", "list_pairings", "add_pairing",
+    name = draw(st.sampled_from(["move", "list", "get", "get", "put", "put", "subscribe", "unsubscribe", "identify", "list_pairings", "add_pairing",
                                  "remove_pairing", "image", "raw_get", "raw_put_json", "raw_post_json", "raw_post", "raw_put"]))
     if name == "get":
         return [name, draw(IDSETS), draw(st.sampled_from(["list", "set"]))]
@@ -262,11 +282,16 @@ def op(draw):
 
 @st.composite
 def cases(draw):
-    return {"host": draw(st.sampled_from(sorted(HOSTS))), "k": draw(st.integers(0, 1000)), "ops": draw(st.lists(op(), min_size=1, max_size=8))}
+    return {"host": draw(st.sampled_from(sorted(HOSTS))), "host2": draw(st.sampled_from([None] + sorted(HOSTS))), "k": draw(st.integers(0, 1000)),
+            "ops": draw(st.lists(op(), min_size=1, max_size=8))}
 
 
 def enum_fixed(tier):
     """Every API x every host family once, so no API depends on the random draw."""
+    for a, b in (("v4", "v6"), ("v6", "v4"), ("v4", "v4b"), ("v6scoped", "v6full")):
+        yield {"host": a, "host2": b, "k": 2, "ops": [["get", [[1, 9]], "list"], ["move"], ["get", [[1, 9], [2, 10]], "list"], ["put", [[1, 9, True]]], ["move"], ["list"],
+                                                   ["raw_post", "/x", b"\x01\x02"]]}
+    yield {"host": "v4", "k": 3, "ops": [["put", [[1, 9, 2**64]]], ["put", [[1, 10, [1, {"a": -2**63 - 1}]]]], ["raw_put_json", "/x", {"n": 10**30}], ["raw_post_json", "/x", [2**64 + 1]]]}
     for hk in sorted(HOSTS):
         yield {"host": hk, "k": 1, "ops": [["list"], ["get", [[1, 9]], "list"], ["get", [[1, 9], [2, 10], [1, 10]], "set"],
                                            ["put", [[1, 9, True]]], ["put", [[1, 10, 5], [2, 10, False], [1, 12, 0.5]]],
@@ -282,7 +307,7 @@ SPEC = Property(
     P, "exploration",
     rule=("sequences of 1..8 request-issuing API calls (list accessories, get with 1..12 ids as list or set, put with values of every "
           "JSON type, subscribe/unsubscribe, identify, list/add/remove pairings, image, and connection.get/put/post/put_json/post_json with "
-          "generated targets and recursive JSON) on a session to an IPv4, IPv6 or scoped-IPv6 peer; the pair-verify requests of the "
+          "generated targets and recursive JSON) on a session to an IPv4, IPv6 or scoped-IPv6 peer, optionally moving to a second advertised address in between; the pair-verify requests of the "
           "insecure phase are checked too. Every request is parsed by the accessory-side strict grammar. Non-trivial: a request with a "
           "body, an IPv6 peer, or a read with >=2 ids."),
     layers=[
@@ -290,6 +315,6 @@ SPEC = Property(
         Layer("generated", run_case, strategy=cases, n={"quick": 8000, "thorough": 80000}, min_nontrivial=500),
     ],
     assumptions=["bodies passed to put/post directly are non-empty (no caller in the package sends an empty body)",
-                 "JSON values: 64-bit integers, finite floats, str keys"],
+                 "JSON values incl. integers beyond 64 bits (the encoder may refuse them, but nothing non-canonical may be sent), finite floats, str keys", "a session may move to another advertised address (peer FIN + first address refusing): the Host header follows the peer of each connection"],
     min_nontrivial=500,
 )
